@@ -102,7 +102,21 @@ def worker(args):
              "tie_cases": 0, "with_dev": 0, "ambiguous_rank_ties": 0}
     try:
         for _ in range(n):
-            r = c01.gen(rng)
+            if rng.random() < 0.06:
+                # the large fine-mode family on purpose: a modality one row short of min_freq_mod in a sample of about 24000 rows
+                # (the share misses the threshold by less than 5e-5)
+                for _ in range(10):
+                    ds = fitgen.gen_crafted(rng, target="binary", fine=True)
+                    if ds["ok_target"]:
+                        break
+                cfg = fitgen.gen_config(rng, "binary")
+                cfg["min_freq"] = rng.choice([0.02, 0.05])
+                cfg["min_freq_mod"] = ds["hint_min_freq_mod"]
+                r = {"ds": ds, "meta": {"what": "carver", "target": "binary", "cfg": cfg, "kinds": ds["kinds"], "n": len(ds["X"]),
+                                        "dev": ds["X_dev"] is not None}}
+                stats["fine_large"] = stats.get("fine_large", 0) + 1
+            else:
+                r = c01.gen(rng)
             stats["cases"] += 1
             stats["with_dev"] += int(r["meta"]["dev"])
             fs = check_case(drv, r, stats)
